@@ -51,8 +51,10 @@ theorem text_layout :
       ["StorageVersion", "contents.nbfVers", "contents.lock.String()", "contents.root.String()", "contents.gcGen.String()"]
     ∧ Gen.ManifestSteps.manifestSep = ":" ∧ Gen.ManifestSteps.prefixLen = 5
     ∧ Gen.ManifestSteps.StorageVersion = "5" ∧ Gen.ManifestSteps.storageVersion4 = "4"
-    ∧ Gen.ManifestSteps.parseV5Sources =
-        ["parseSpecs(slices[prefixLen-1:])", "hash.MaybeParse(slices[1])", "hash.MaybeParse(slices[3])", "hash.MaybeParse(slices[2])"]
+    ∧ Gen.ManifestSteps.parseV5Slices.lookup "specs" = some "slices[prefixLen-1:]"
+    ∧ (Gen.ManifestSteps.parseV5Slices.lookup "lock" = some "slices[1]")
+    ∧ (Gen.ManifestSteps.parseV5Slices.lookup "root" = some "slices[2]")
+    ∧ (Gen.ManifestSteps.parseV5Slices.lookup "gcGen" = some "slices[3]")
     ∧ Gen.ManifestSteps.parseV5Fields.lookup "nbfVers" = some "slices[0]" := by decide
 
 /-! the actor programs of `Model/ManFs.lean` are these step lists -/
